@@ -56,6 +56,7 @@ func (h ErrorHandler) ServeHTTP(w http.ResponseWriter, r *http.Request) (int, er
 			// Write error to response instead of to log (a status of 0
 			// means the response has already been written: then the
 			// error can only be logged)
+			w.Header().Del("Content-Length") // possibly announced by the handler that failed
 			w.Header().Set("Content-Type", "text/plain; charset=utf-8")
 			w.WriteHeader(status)
 			fmt.Fprintln(w, errMsg)
